@@ -136,6 +136,50 @@ void run_conv(sink& out, std::vector<A> const& ls)
     }
 }
 
+// floating-point source -> integer destination D under an overflow tag: values around both range bounds
+template<class Tag, class F, class D>
+void run_conv_float(sink& out)
+{
+    using Res = decltype(cnl::convert<Tag, D>{}(std::declval<F>()));
+    int id = add_inst(
+            out, ev("Inst").str("kind", "OvConvF").str("op", "conv").str("tag", tagname<Tag>()).str("api", "convert")
+                         .str("path", VERIF_PATH).raw("lt", ty<F>()).raw("rt", ty<D>()).raw("res_t", ty<Res>()));
+    std::vector<F> xs;
+    F hi = static_cast<F>(std::numeric_limits<D>::max());
+    F lo = static_cast<F>(std::numeric_limits<D>::min());
+    for (F c : {hi, lo, static_cast<F>(0)}) {
+        F x = c;
+        for (int k = 0; k < 4; ++k) {
+            xs.push_back(x);
+            x = std::nextafter(x, std::numeric_limits<F>::infinity());
+        }
+        x = c;
+        for (int k = 0; k < 4; ++k) {
+            xs.push_back(x);
+            x = std::nextafter(x, -std::numeric_limits<F>::infinity());
+        }
+        for (F d : {static_cast<F>(0.5), static_cast<F>(1), static_cast<F>(1.5), static_cast<F>(2), static_cast<F>(1000)}) {
+            xs.push_back(c + d);
+            xs.push_back(c - d);
+        }
+        xs.push_back(c * 2);
+        xs.push_back(c / 2);
+    }
+    rng r(static_cast<std::uint64_t>(sizeof(F) * 100 + sizeof(D)));
+    for (int k = 0; k < (thorough() ? 400 : 30); ++k) {
+        F m = static_cast<F>(r.g() >> 11) / static_cast<F>(1ULL << 53);
+        xs.push_back(std::ldexp(m, static_cast<int>(r.g() % (sizeof(D) * 8 + 4))) * ((r.g() & 1) ? 1 : -1));
+    }
+    for (F x : xs) {
+        if (!(x == x) || x - x != 0) {
+            continue;
+        }
+        Res res{};
+        auto o = guarded([&] { res = cnl::convert<Tag, D>{}(x); });
+        out.put(ev("OvConvF").num("i", id).raw("l", enc_float(x)).raw("res", o == "ok" ? enc(res) : "[0]").str("out", o).s);
+    }
+}
+
 template<class Tag, class R>
 void family(sink& out, bool full)
 {
@@ -180,6 +224,11 @@ int main(int argc, char** argv)
     }
     install();
     sink out(argv[1], std::string("\"cc\":\"") + VERIF_CC + "\"");
+    run_conv_float<cnl::saturated_overflow_tag, float, L>(out);
+    run_conv_float<cnl::saturated_overflow_tag, double, L>(out);
+    run_conv_float<cnl::saturated_overflow_tag, long double, L>(out);
+    run_conv_float<cnl::_impl::throwing_overflow_tag, float, L>(out);
+    run_conv_float<cnl::trapping_overflow_tag, double, L>(out);
     auto nl = sizeof(L) == 1 ? all_values_or_boundary<L>() : operands<L>(thorough() ? 200 : 20, LHS_INDEX * 100 + 3, thorough() ? 2 : 1);
     run_neg<cnl::saturated_overflow_tag>(out, nl);
     run_neg<cnl::_impl::throwing_overflow_tag>(out, nl);
